@@ -26,6 +26,7 @@ def handleTables (_j : Json) : R Json := do
   pure (Json.mkObj [
     ("singles", Json.str (String.ofList singleLetterAtoms)),
     ("doubles", Json.arr (doubleLetterAtoms.map fun (a, b) => Json.str (String.ofList [a, b])).toArray),
+    ("dispatch", Json.arr (distDispatch.map fun (k, f) => Json.arr #[Json.str k, Json.str (reprStr f)]).toArray),
     ("masses", Json.arr (atomicMasses.map fun (z, m) => Json.arr #[natToJson z, ratToJson m]).toArray)])
 
 def handleGen (j : Json) : R Json := do
